@@ -489,17 +489,84 @@ func (c *ctx) value(e ast.Expr, moved bool) string {
 			}
 		}
 	}
-	if isSlice(ty) || c.t.ownStruct(ty) != nil || isRand(ty) {
+	if (isSlice(ty) || c.t.ownStruct(ty) != nil || isRand(ty)) && !flat(ty) {
 		switch x := ast.Unparen(e).(type) {
 		case *ast.Ident:
 			if v := c.t.varOf(x); v != nil && !(moved && !c.isParam(v)) && !c.deadAfter(v) {
 				c.fail(e, "aliasing: the slice, struct or generator %s is stored a second time", x.Name)
 			}
 		case *ast.SelectorExpr, *ast.SliceExpr, *ast.IndexExpr, *ast.StarExpr:
-			c.fail(e, "aliasing: an existing slice or struct is stored a second time")
+			if !(moved && c.lentResult(e)) {
+				c.fail(e, "aliasing: an existing slice or struct is stored a second time")
+			}
 		}
 	}
 	return c.expr(e)
+}
+
+// lentResult: `return g.adj[v]` — the result is an ALIAS of storage of the receiver.  The translated function states
+// the VALUE of the result at the moment of the return, and that statement is true whether or not the result shares
+// storage with anything.  What sharing changes is what LATER code sees that holds both the result and the receiver;
+// so the shape is accepted exactly when no translated function mentions this function (the alias can only reach
+// untranslated callers: nothing in the generated file is a claim about code that runs after the return), the function
+// does not itself write to the receiver or to a parameter, and the operand is a plain path of fields and elements of
+// the receiver.  The generated doc comment says so.
+func (c *ctx) lentResult(e ast.Expr) bool {
+	if c.f.recv == nil || c.f.mutRecv || len(c.f.mutParam) > 0 || c.t.mentionsMutRec(c.typeOf(e)) || c.t.mentioned(c.f) {
+		return false
+	}
+	for x := ast.Unparen(e); ; {
+		switch y := x.(type) {
+		case *ast.SelectorExpr:
+			x = ast.Unparen(y.X)
+		case *ast.IndexExpr:
+			x = ast.Unparen(y.X)
+		case *ast.Ident:
+			if c.t.varOf(y) != c.f.recv {
+				return false
+			}
+			c.f.lends = true
+			return true
+		default:
+			return false
+		}
+	}
+}
+
+// mentioned: some translated function refers to g (calls it, or uses it as a function value).
+func (t *translator) mentioned(g *fn) bool {
+	found := false
+	for _, h := range t.order {
+		ast.Inspect(h.decl.Body, func(n ast.Node) bool {
+			if id, ok := n.(*ast.Ident); ok {
+				if f, _ := t.info.Uses[id].(*types.Func); f != nil && f.Origin() == g.obj.Origin() {
+					found = true
+				}
+			}
+			return !found
+		})
+	}
+	return found
+}
+
+// flat: a type whose values contain no reference at all — basic types, and struct VALUES / arrays built from them (not
+// through a pointer).  A Go assignment of such a value copies all of it, so storing it a second time shares nothing
+// (`g.adj[v] = append(g.adj[v], e); g.adj[w] = append(g.adj[w], e)` for an edge struct e).
+func flat(ty types.Type) bool {
+	switch u := types.Unalias(ty).Underlying().(type) {
+	case *types.Basic:
+		return u.Kind() != types.UnsafePointer
+	case *types.Struct:
+		for i := 0; i < u.NumFields(); i++ {
+			if !flat(u.Field(i).Type()) {
+				return false
+			}
+		}
+		return true
+	case *types.Array:
+		return flat(u.Elem())
+	}
+	return false
 }
 
 // deadAfter: v is a local variable (not a parameter) that the function never mentions after the statement being
@@ -1026,6 +1093,27 @@ func (c *ctx) assign(s *ast.AssignStmt) {
 		}
 	}
 	if len(s.Rhs) == 1 && len(s.Lhs) == 1 && !define {
+		// x = append(x, s...): x grows in place by COPIES of the elements of s (s itself is only read).  As above no
+		// second reference to x's array exists; the copied elements share nothing with those of s when the element
+		// type is flat (no reference inside), and for an element type that is a type parameter the translated code has
+		// no operation that could look inside an element, so sharing there is unobservable.
+		if call, ok := ast.Unparen(s.Rhs[0]).(*ast.CallExpr); ok && c.builtin(call.Fun) == "append" && call.Ellipsis.IsValid() &&
+			len(call.Args) == 2 && c.sameExpr(s.Lhs[0], call.Args[0]) && !c.sameExpr(call.Args[0], call.Args[1]) {
+			if sl, isSl := types.Unalias(c.typeOf(call.Args[1])).Underlying().(*types.Slice); isSl {
+				_, isTP := types.Unalias(sl.Elem()).(*types.TypeParam)
+				if !flat(sl.Elem()) && !isTP {
+					c.fail(call, "append(x, s...) for an element type %s that contains references (the copies would share them)", sl.Elem())
+				}
+				if _, isId := ast.Unparen(call.Args[0]).(*ast.Ident); isId {
+					store := c.placeOf(s.Lhs[0], false, true)
+					cur := c.expr(s.Lhs[0])
+					store("(" + paren(cur) + " ++ " + paren(c.sliceValue(call.Args[1])) + ")")
+					return
+				}
+			}
+		}
+	}
+	if len(s.Rhs) == 1 && len(s.Lhs) == 1 && !define {
 		// x = append(x[:i], x[i+1:]...): element i is removed in place.  Whatever the capacity, Go panics unless
 		// 0 <= i and i+1 <= len(x) (x[i+1:] is checked against the LENGTH), and otherwise the result is x without its
 		// i-th element; no second reference to x's array exists in the subset.
@@ -1339,10 +1427,20 @@ func (c *ctx) stmt(s ast.Stmt) bool {
 		}
 		return c.ifStmt(x)
 	case *ast.SwitchStmt:
-		if x.Init != nil || x.Tag != nil {
-			c.fail(s, "switch with a tag or an init statement")
+		if x.Init != nil {
+			c.fail(s, "switch with an init statement")
 		}
-		return c.switchCases(x.Body.List)
+		if x.Tag != nil {
+			// switch tag { case e1: … case e2: … default: … } on an int: the tag is evaluated once, then the case
+			// expressions in order, each only if no earlier one was equal (Go spec, "Expression switches") — an if-chain.
+			if !isInt(c.typeOf(x.Tag)) {
+				c.fail(s, "switch on a tag of type %s", c.typeOf(x.Tag))
+			}
+			tag := c.fresh()
+			c.w.emit("let %s : Int := %s", tag, c.expr(x.Tag))
+			return c.switchCases(x.Body.List, tag)
+		}
+		return c.switchCases(x.Body.List, "")
 	case *ast.ReturnStmt:
 		sig := c.f.obj.Type().(*types.Signature)
 		if len(x.Results) == 0 && sig.Results().Len() > 0 {
@@ -1421,7 +1519,7 @@ func (c *ctx) ifStmt(x *ast.IfStmt) bool {
 
 // switchCases: `switch { case a: A; case b: B; default: D }` as `if a then A else (if b then B else D)`;
 // each condition is evaluated only when the previous ones were false.
-func (c *ctx) switchCases(cases []ast.Stmt) bool {
+func (c *ctx) switchCases(cases []ast.Stmt, tag string) bool {
 	if len(cases) == 0 {
 		return false
 	}
@@ -1449,13 +1547,20 @@ func (c *ctx) switchCases(cases []ast.Stmt) bool {
 	if len(cc.List) != 1 {
 		c.fail(cc, "case with several expressions")
 	}
-	c.w.emit("if %s then", c.expr(cc.List[0]))
+	if tag != "" {
+		if !isInt(c.typeOf(cc.List[0])) {
+			c.fail(cc, "case expression of type %s", c.typeOf(cc.List[0]))
+		}
+		c.w.emit("if (%s == %s) then", tag, c.expr(cc.List[0]))
+	} else {
+		c.w.emit("if %s then", c.expr(cc.List[0]))
+	}
 	t1 := c.nested(body)
 	if len(cases) == 1 {
 		return false
 	}
 	c.w.emit("else")
-	t2 := c.nested(func() bool { return c.switchCases(cases[1:]) })
+	t2 := c.nested(func() bool { return c.switchCases(cases[1:], tag) })
 	return t1 && t2
 }
 
@@ -2026,7 +2131,11 @@ func (t *translator) emitFn(g *fn) string {
 	for _, d := range sh.defs {
 		b.WriteString(d + "\n")
 	}
-	fmt.Fprintf(&b, "/-- `%s` -/\n", sigText.String())
+	if g.lends {
+		fmt.Fprintf(&b, "/-- `%s` — the result ALIASES storage of the receiver: this is its value at the moment of the return\n(no translated function uses it; see `lentResult` in go2lean) -/\n", sigText.String())
+	} else {
+		fmt.Fprintf(&b, "/-- `%s` -/\n", sigText.String())
+	}
 	switch {
 	case g.recursive:
 		fmt.Fprintf(&b, "%s: Outcome %s :=\n  match fuel with\n  | 0 => .diverge\n  | fuel+1 => do\n", head, paren(res))
